@@ -1,9 +1,10 @@
 #!/usr/bin/env python3
 """Run every seeded change against the check(s) of its property (quick tier), sequentially, and write seeded/RESULTS.md + seeded/<id>/ran.json.
+SEED_SCRATCH=1: apply the change to the scratch worktree /tmp/mut instead of /repo (tools/seed_scratch.sh; same checks, /repo untouched).
 Each seed is applied to /repo with `git apply`, the check runs, and `git checkout -- .` restores the tree (the committed evidence is restored too)."""
 import json, os, re, subprocess, sys, glob, time
 V = '/verif'
-EXTRA = {'C02-h': ['C02', 'C04'], 'C03-g': ['C03', 'C01'], 'C04-g': ['C04', 'C11'], 'C07-g': ['C07', 'C11', 'C03'], 'C01-e': ['C01', 'C19'], 'C01-f': ['C01', 'C09'], 'C03-f': ['C03', 'C01'], 'C04-e': ['C04', 'C11', 'C03'], 'C04-f': ['C04', 'C07'], 'C06-f': ['C06', 'C05'], 'C04-c': ['C04', 'C07'], 'C04-d': ['C04', 'C11', 'C03'], 'C06-d': ['C06', 'C12'], 'C10-d': ['C10', 'C01'], 'C03-d': ['C03', 'C01', 'C19'], 'C07-c': ['C07', 'C04'], 'C11-d': ['C11', 'C03'], 'C19-d': ['C19', 'C01'], 'C06-b': ['C06', 'C12'], 'C04-b': ['C04', 'C03'], 'C07-a': ['C07', 'C04'], 'C07-b': ['C07', 'C04'], 'C10-b': ['C10', 'C01']}
+EXTRA = {'C15-h': ['C15', 'C09'], 'C19-g': ['C19', 'C03'], 'C20-h': ['C20', 'C12'], 'C02-h': ['C02', 'C04'], 'C03-g': ['C03', 'C01'], 'C04-g': ['C04', 'C11'], 'C07-g': ['C07', 'C11', 'C03'], 'C01-e': ['C01', 'C19'], 'C01-f': ['C01', 'C09'], 'C03-f': ['C03', 'C01'], 'C04-e': ['C04', 'C11', 'C03'], 'C04-f': ['C04', 'C07'], 'C06-f': ['C06', 'C05'], 'C04-c': ['C04', 'C07'], 'C04-d': ['C04', 'C11', 'C03'], 'C06-d': ['C06', 'C12'], 'C10-d': ['C10', 'C01'], 'C03-d': ['C03', 'C01', 'C19'], 'C07-c': ['C07', 'C04'], 'C11-d': ['C11', 'C03'], 'C19-d': ['C19', 'C01'], 'C06-b': ['C06', 'C12'], 'C04-b': ['C04', 'C03'], 'C07-a': ['C07', 'C04'], 'C07-b': ['C07', 'C04'], 'C10-b': ['C10', 'C01']}
 rows = []
 seeds = sorted(os.path.basename(d) for d in glob.glob(V + '/seeded/C*') if os.path.isdir(d))
 only = sys.argv[1:]
@@ -13,7 +14,12 @@ for seed in seeds:
     pid = seed.split('-')[0]
     for chk in EXTRA.get(seed, [pid]):
         t0 = time.time()
-        p = subprocess.run([V + '/tools/seedtest.sh', seed, chk, 'quick'], stdout=subprocess.PIPE, stderr=subprocess.STDOUT, text=True)
+        if os.environ.get('SEED_SCRATCH'):
+            # same verdicts without touching /repo: the change is applied to the scratch worktree /tmp/mut and the replay crate is built against it
+            p = subprocess.run([V + '/tools/seed_scratch.sh', V + '/seeded/%s/patch.diff' % seed, chk, 'quick'], stdout=subprocess.PIPE, stderr=subprocess.STDOUT, text=True,
+                               env=dict(os.environ, SEED_SCRATCH_RAW='1'))
+        else:
+            p = subprocess.run([V + '/tools/seedtest.sh', seed, chk, 'quick'], stdout=subprocess.PIPE, stderr=subprocess.STDOUT, text=True)
         out = p.stdout
         m = re.search(r'seed=\S+ check=\S+ rc=(\d+)', out)
         rc = int(m.group(1)) if m else -1
